@@ -1193,7 +1193,7 @@ def _vmat_replay(ctx, rec, drv, sc, recs, r, stats, light=False):
     return fails
 
 
-def part_vmatrix(ctx, rec):
+def part_vmatrix(ctx, rec, exe=None):
     """White-box replay of _vnacal_new_solve_simple with the model on against VMatrixModel: V matrices at the
     start of every frequency, weight vector, no-V threads, coefficient rows of every pass, V update, loop."""
     wbv = VG.build_wbv(ctx)
@@ -1222,6 +1222,17 @@ def part_vmatrix(ctx, rec):
         k += 1
         cases.append(VG.scen_rect(rng, "vr%d_%s_%dx%d" % (k, typ, mr, mc), typ, mr, mc, 2,
                                   rng.choice([1e-4, 1e-3]), rng.choice([1e-2, 5e-2, 1e-1]), True))
+    # column systems that are NOT equally determined (UE14 / E12, 2 and 3 columns), both orientations, exact and
+    # noisy: vnss_include_v, the V allocation and the rows are per system, so the replay compares them per system
+    ta, tb = rng.sample(["UE14", "E12"], 2)
+    o3 = rng.choice([(3, 4, 4), (4, 3, 4), (4, 4, 3), (4, 3, 3), (3, 3, 4), (3, 4, 3)])
+    uneq = [(ta, 2, (4, 3), True), (ta, 2, (3, 4), False), (tb, 3, o3, rng.random() < 0.5)]
+    if ctx.tier != "quick":
+        uneq += [(tb, 2, (4, 3), False), (tb, 2, (3, 4), True), (ta, 3, (3, 4, 4), False), (ta, 3, (4, 3, 3), True)]
+    for typ, n, ks, noisy in uneq:
+        k += 1
+        cases.append(VG.scen_unequal(rng, "vu%d_%s_%d_%s" % (k, typ, n, "".join(map(str, ks))), typ, n, ks, 2,
+                                     rng.choice([1e-4, 1e-3]), rng.choice([1e-2, 5e-2]), noisy))
     # light scenarios, every run: frequency starts, weights, no-V threads and term lists only (no replay of the
     # passes) for both diagonal families, square and rectangular, so that these cheap ties never rotate out
     light = set()
@@ -1234,7 +1245,8 @@ def part_vmatrix(ctx, rec):
                 sc = VG.scen_rect(rng, "vl%d_%s_%dx%d" % (k, typ, mr, mc), typ, mr, mc, 1, 1e-3, 5e-2, True)
             light.add(sc.sid)
             cases.append(sc)
-    stats = {"vinit": 0, "weights": 0, "weights_distinct": 0, "passes": 0, "updates": 0, "multi_freq_with_v": 0, "rect": 0, "rows": 0, "termlists": 0}
+    stats = {"vinit": 0, "weights": 0, "weights_distinct": 0, "passes": 0, "updates": 0, "multi_freq_with_v": 0, "rect": 0, "rows": 0, "termlists": 0,
+             "unequal": 0, "unequal_first_null": 0, "unequal_first_present": 0}
     allfails = []
     for sc in cases:
         rc, out, err = vplib.sh([wbv], input=sc.text(), timeout=120, env=G.run_env(ctx, True))
@@ -1254,6 +1266,16 @@ def part_vmatrix(ctx, rec):
             stats["multi_freq_with_v"] += 1
         if sc.meta.get("family") == "vmat_rect":
             stats["rect"] += 1
+        if sc.meta.get("family") == "vmat_unequal":
+            shapes = set()
+            for fr in recs:
+                for vv in fr["vinit"].values():
+                    if vv is not None:
+                        shapes.add("".join("P" if m_ is not None else "N" for m_ in vv))
+            if any("P" in x and "N" in x for x in shapes):
+                stats["unequal"] += 1
+                stats["unequal_first_null"] += any(x.startswith("N") for x in shapes)
+                stats["unequal_first_present"] += any(x.startswith("P") for x in shapes)
         if not sc.meta.get("noisy") and r["solve"] and r["solve"][-1]["rc"] != 0:
             rec.add({"kind": "exact_rejected", "where": "vmatrix", "type": sc.typ},
                     "exact over-determined data with the model on: vnacal_new_solve failed (%s)" % r["solve"][-1].get("msg"), sc, None)
@@ -1273,10 +1295,39 @@ def part_vmatrix(ctx, rec):
         for _, detail, sc in mine[:1]:
             rec.add({"kind": "model_code_disagree", "tie": nm, "type": sc.typ}, detail, sc, None)
     cover = (stats["rect"] > 0 and stats["multi_freq_with_v"] > 0 and stats["updates"] > 0 and stats["weights_distinct"] > 0
-             and stats["termlists"] > 0)
-    ctx.obligation("tie:vmatrix_coverage", cover, "rectangular %d, multi-frequency with V %d, updates %d, distinct-weight vectors %d"
-                   % (stats["rect"], stats["multi_freq_with_v"], stats["updates"], stats["weights_distinct"]))
-    return not allfails and cover
+             and stats["termlists"] > 0 and stats["unequal_first_null"] > 0 and stats["unequal_first_present"] > 0)
+    ctx.obligation("tie:vmatrix_coverage", cover, "rectangular %d, multi-frequency with V %d, updates %d, distinct-weight vectors %d, "
+                   "unequally determined column systems %d (first column without V matrix %d, first column with %d)"
+                   % (stats["rect"], stats["multi_freq_with_v"], stats["updates"], stats["weights_distinct"], stats["unequal"],
+                      stats["unequal_first_null"], stats["unequal_first_present"]))
+    api_ok = True
+    if exe is not None:
+        # the exact-data clause through the public API on unequally determined column systems, both orientations
+        ascs = []
+        for typ in ("UE14", "E12"):
+            for n, ks in ((2, (4, 3)), (2, (3, 4)), (3, rng.choice([(3, 4, 4), (4, 3, 3)])), (3, rng.choice([(4, 4, 3), (3, 3, 4)]))):
+                k += 1
+                ascs.append(VG.scen_unequal(rng, "va%d_%s_%d_%s" % (k, typ, n, "".join(map(str, ks))), typ, n, ks,
+                                            rng.choice([1, 2]), rng.choice([1e-4, 1e-3]), rng.choice([1e-3, 5e-2]), False))
+        ares = G.run_batch(ctx, exe, ascs)
+        for sc in ascs:
+            r = ares.get(sc.sid)
+            if r is None:
+                continue
+            ctx.count(("unequal_exact_api", sc.typ, sc.n, tuple(sc.meta["ks"])))
+            sres_ = check_common(rec, sc, r, "exact data, unequally determined column systems")
+            if sres_ is None:
+                api_ok = False
+                continue
+            if sres_["rc"] != 0 or min(sres_["pvalues"]) < 0.5:
+                api_ok = False
+                rec.add({"kind": "exact_rejected", "where": "unequal columns", "type": sc.typ},
+                        "exact over-determined data, %s %d columns with equation counts differing per column (reflects per port %s), "
+                        "model on: vnacal_new_solve rc %d (%s), p-values %s" % (sc.typ, sc.n, list(sc.meta["ks"]), sres_["rc"],
+                                                                              sres_.get("msg"), sres_["pvalues"]), sc, r)
+        ctx.obligation("exact data on unequally determined column systems are solved and not rejected (API)", api_ok,
+                       "%d scenarios (UE14, E12; 2 and 3 columns; both orientations)" % len(ascs))
+    return not allfails and cover and api_ok
 
 
 
@@ -1403,7 +1454,7 @@ def run(ctx):
     ctx.log("exactly determined")
     ed_ok = part_exactly_determined(ctx, rec, exe)
     ctx.log("V-matrix machinery of solve_simple vs VMatrixModel")
-    vm_ok = part_vmatrix(ctx, rec)
+    vm_ok = part_vmatrix(ctx, rec, exe)
     ctx.log("noise vectors on their own grid vs SplineModel")
     ns_ok = part_noise_spline(ctx, rec, exe)
     if ctx.tier != "quick":
